@@ -176,5 +176,5 @@ def cases(draw):
 
 
 def checks(tier):
-    n = {"quick": 10000, "thorough": 100000}.get(tier, 10)
+    n = {"quick": 10000, "thorough": 50000}.get(tier, 10)
     return [Check("roi_to_subset_state", fn_roi, strategy=cases(), examples=n)]
